@@ -106,3 +106,20 @@ lemma("C17.discovery_probe_is_pinned",
                "digest": "md5(bytes(DISCOVERY_MSG)).hex() == PROBE_MD5"})
 
 PROBE_MD5 = "91d880c04f486cd7e23081eda4eaa58d"
+
+
+contract(DISC + "Discover._get_device#wellformed",
+         params={"ip": "str", "version": "int[2,3]", "head20": "bytes[20]", "device_id": "int[0,281474976710655]", "head14": "bytes[14]",
+                 "ip_rev": "bytes[4]", "port": "int[0,65535]", "pad2": "bytes[2]", "sn": "bytes[32]", "name": "bytes", "rest": "bytes",
+                 "tail16": "bytes[16]", "pre8": "bytes[8]", "post16": "bytes[16]"},
+         globals={DISC + "Discover._auto_connect": "const:False"},
+         requires=["len(name) <= 255", "len(rest) <= 1000"],
+         let={"data": "(pre8 + disc_reply_v2(head20, device_id, head14, disc_body(ip_rev, port, pad2, sn, name, rest), tail16) + post16) if version == 3 else disc_reply_v2(head20, device_id, head14, disc_body(ip_rev, port, pad2, sn, name, rest), tail16)"},
+         bind={"data": "data"},
+         calls_inline=[DISC + "Discover._get_device_info", DISC + "Discover._get_device_class"],
+         raises={},
+         ensures={"identity_as_advertised": "result is None or (result._ip == ip and result._port == port and result._id == device_id and result._version == version "
+                                            "and result._sn == sn.decode() and result._name == name.decode())",
+                  "type_from_the_name": "result is None or (isinstance(result, AirConditioner) == (int(name.decode().split('_')[1], 16) == 0xAC))",
+                  "lan_targets_the_device": "result is None or (result._lan._ip == ip and result._lan._port == port and result._lan._device_id == device_id)"},
+         notes="C17 at device level: the object handed to the user carries exactly the advertised identity (None only when the text fields do not parse)")
